@@ -354,6 +354,59 @@ def check_cursor_accessors(ctx, lvl, cls, hdr, path, rule):
 
 
 # --------------------------------------------------------------- level size
+def check_entry_cursor_ctor(ctx, lvl, cls, path, rule):
+    """an entry whose cursor is moved by none of its members (no non-constant field, no group, no data) needs the
+    generated cursor constructor that checks and skips `block_length` bytes; every other entry must not have it (its
+    last member already moves the cursor to the block end)"""
+    chk = ctx.chk
+    if len(path) < 3:
+        return          # message level: the first group / data accessor re-bases the cursor
+    ent = "::".join(path)
+    needs = not [f for f in lvl.fields if f.presence != "constant"] and not lvl.groups and not lvl.data
+    ctors = [f for f in ctx.lib.eng.fns.values() if f.get("cls") == cls and f.get("ctor") and f.get("body") is not None
+             and len(f.get("params") or []) == 3 and "sbepp::cursor<" in f["params"][0]["t"] and not f["file"].endswith("sbepp.hpp")]
+    key = "entry-cursor-ctor:" + ent
+    if needs and not ctors:
+        chk.violation(rule, key, ctx.xml(), "entry %s (%s) has no member that moves a cursor and the generated class has no cursor "
+                      "constructor skipping block_length: cursor iteration never leaves the entry when the wire blockLength is "
+                      "not zero" % (ent, cls))
+        return
+    if not needs and ctors:
+        chk.violation(rule, key, where(ctors[0]), "entry %s has members that move the cursor and also a cursor constructor that skips "
+                      "block_length: the cursor is advanced twice" % ent)
+        return
+    if not needs:
+        chk.ok(rule, key, {"entity": ent, "special_ctor": False})
+        return
+    f = ctors[0]
+    errs = []
+    bl = f["params"][2]["name"]
+    seq = []
+    for n in walk(f["body"]):
+        if "SBEPP_SIZE_CHECK" in (n.get("mac") or []) and n.get("k") == "BinaryOperator" and n.get("op") == "<=":
+            lhs = gen_text(n.get("lhs"))
+            seq.append(("check", lhs))
+        if n.get("k") == "CompoundAssignOperator" and n.get("op") in ("+=", "-="):
+            seq.append((n["op"], gen_text(n.get("lhs")), gen_text(n.get("rhs"))))
+    checks = [x for x in seq if x[0] == "check"]
+    moves = [x for x in seq if x[0] in ("+=", "-=")]
+    if not checks or bl not in checks[0][1]:
+        errs.append("no SBEPP_SIZE_CHECK over block_length bytes (found %s)" % checks)
+    if len(moves) != 1 or moves[0][0] != "+=" or "pointer()" not in moves[0][1] or moves[0][2].strip("()") != bl:
+        errs.append("cursor must be advanced by exactly `c.pointer() += block_length` (found %s)" % moves)
+    elif checks and seq.index(checks[0]) > seq.index(moves[0]):
+        errs.append("the size check comes after the cursor move")
+    if errs:
+        chk.violation(rule, key, where(f), "cursor constructor of entry %s: %s" % (ent, "; ".join(errs)))
+    else:
+        chk.ok(rule, key, {"entity": ent, "special_ctor": True})
+
+
+def gen_text(n):
+    import gen
+    return gen.expr_text(n, 0, None) if n is not None else ""
+
+
 def check_level_size(ctx, lvl, cls, hdr, path, rule):
     chk, lib = ctx.chk, ctx.lib
     key = "::".join(path)
@@ -767,6 +820,7 @@ def check(chk, which, tier, only=None):
         if "cursor" in which:
             for lvl, cls, hdr, path in ctx.levels():
                 check_cursor_accessors(ctx, lvl, cls, hdr, path, "E4.cursor")
+                check_entry_cursor_ctor(ctx, lvl, cls, path, "E4.cursor")
         if "level_size" in which:
             for lvl, cls, hdr, path in ctx.levels():
                 check_level_size(ctx, lvl, cls, hdr, path, "E4.level_size")
